@@ -57,6 +57,16 @@ CLAIMED = {
         note=TRUST + " Assumed: the kvi interface contract (spec/kv.gvc: one ordered byte-string map; proved per driver under C10), AddDocTx writes only "
              "index keys, proto.Marshal/Unmarshal inverse, byte-order and prefix axioms of spec/kv.smt2 and spec/keys.smt2.",
         technique="contract-based deductive verification: abstract-store postconditions with frames, VCs over go/ssa, SMT"),
+    "C04": dict(
+        level="other",
+        text="Partial: (restart) NewIndex is proved to rebuild the indexed-field registry from the persisted field keys (registry == scan of "
+             "the store, via the proved scan contract of ListFields), so an index opened on an existing store behaves like the one that wrote it; "
+             "(crash) every mutator under contract is proved to issue at most one top-level key-value write (insertVertex/insertEdge none, "
+             "AddVertex/AddEdge/DelEdge exactly one transaction), which with atomic top-level writes gives all-or-nothing mutations; DeleteGraph's "
+             "multi-write sequence is a recorded known finding. NewKVGraph/ListGraphs and DelVertex are not yet under contract.",
+        ref="§5 C04",
+        note=TRUST + " Assumed: each top-level write of the store is atomic and durable (as the property stipulates); kvi interface contract (spec/kv.gvc).",
+        technique="contract-based deductive verification: representation invariant + ghost write counter, VCs over go/ssa, SMT"),
     "C05": dict(
         level="proof",
         text="Mediation is proved as the precondition of the handler parameter of both gRPC interceptors: for every exposed method "
